@@ -79,6 +79,7 @@ Section Members.
   Proof.
     intros [L A] C. unfold member_meta. cbn [os_objs].
     destruct (N.ltb_spec (N.of_nat (m_off m)) (N.of_nat c)); [lia|].
+    destruct (N.ltb_spec (N.of_nat (len s)) (N.of_nat (m_off m))); [lia|].
     rewrite Nat2N.id, (set_cursor_ok c _ L).
     destruct (obj_at_inv _ _ _ _ A) as (u & o & E1 & E2 & Ev). rewrite E1, E2, Ev. reflexivity.
   Qed.
@@ -142,12 +143,22 @@ Section Members.
     rewrite (os_objs_step m rest _ _ Lm Om). rewrite (register_dup _ _ _ _ D). reflexivity.
   Qed.
 
+  (* a declared offset beyond the data: rejected (EndOfBuffer), nothing defined *)
+  Theorem os_objs_offset_beyond onum ofs rest c ctx :
+    c <= len s -> (N.of_nat (len s) < ofs)%N ->
+    os_objs rel b ((onum, ofs) :: rest) s c ctx = (PErr EEndOfBuffer c, ctx).
+  Proof.
+    intros L B. cbn [os_objs]. destruct (N.ltb_spec ofs (N.of_nat c)); [lia|].
+    destruct (N.ltb_spec (N.of_nat (len s)) ofs); [reflexivity|lia].
+  Qed.
+
   (* whatever the header and the data are, a definition that exists is never changed *)
   Theorem os_objs_monotone meta : forall c ctx id o,
     lookup ctx id = Some o -> lookup (snd (os_objs rel b meta s c ctx)) id = Some o.
   Proof.
     induction meta as [|[onum ofs] r IH]; intros c ctx id o H; cbn [os_objs]; [exact H|].
     destruct (ofs <? N.of_nat c)%N; [exact H|].
+    destruct (N.of_nat (len s) <? ofs)%N; [exact H|].
     destruct (set_cursor s c (N.to_nat ofs)) as [u c0| | |]; try exact H.
     destruct (ws_eol true s c0) as [u1 c1| | |]; try exact H.
     destruct (parse_obj rel b s c1) as [ob c2| | |]; try exact H.
